@@ -33,16 +33,17 @@ ATOMS = ['a', 'b1', '_x', 'r', 'not', 'in', 'and', 'True', 'del', 'for', 'if', '
          '-=', '*=', '/=', '**=', '=<', '|', '.', ',', ':', '(', ')', '[', ']', '{', '}', ';', '\n', '\r\n', '\r', ' ', '\t', '  ', '#c',
          '# x\n', '#', '$', '?', '@', '~', '^', '&', '`', '\x0c', '\xa0', ' ', '\x00', '﻿', '́', '·', '𝒳', '\U0001F600',
          'nota', 'inx', 'ra', 'rb"x"', '%x%y%', '%#%', 'None1', 'elif', 'raise', '%\n%', 'a%b%', '1a', 'a1.b2']
-NAMEPOOL = ['%a b%', '%x.y%', '%a+b%', '%q"r%', '%#h%', '%(%', '% %', '%1%', 'nota', 'inx', 'r', 'ra', '_x', 'é1', 'True_', 'orx', 'delx',
+NAMEPOOL = ['%a  b%', '%a\tb%', '%a b%', '%a b%', '%x.y%', '%a+b%', '%q"r%', '%#h%', '%(%', '% %', '%1%', 'nota', 'inx', 'r', 'ra', '_x', 'é1', 'True_', 'orx', 'delx',
             'ifx', 'x1', 'len', 'str', '%len%', 'α', 'rr', '%it\'s%', '%a,b%', '%a=>b%', '%x;y%']
 _parser = None
 
 
 def parser():
+    """one long-lived parser WITH a parse cache (a cache must not change which names an evaluation asks for)"""
     global _parser
-    if _parser is None:
+    if _parser is None or len(_parser.parse_cache) > 20000:
         from smartquery import SqParser
-        _parser = SqParser()
+        _parser = SqParser(parse_cache={})
     return _parser
 
 
